@@ -48,6 +48,16 @@ Section C17.
     add_files_as uni_esc uni_alnum mm fuel s dir to es = add_files_as uni_esc uni_alnum mm fuel s dir to (shape_es es).
   Proof. exact (add_files_as_shape uni_esc uni_alnum mm). Qed.
 
+  (* what the static walkers read -- and announce, by reads_are_announced -- is exactly what their
+     views keep: add_files the directory and its regular files with an extension; add_files_as the
+     directory, every regular file below it and every sub-directory *)
+  Theorem add_files_reads_its_view : forall s dir es,
+    reads (sw (add_files uni_esc uni_alnum mm s dir es)) = reads (sw s) ++ dir :: reads_files dir es.
+  Proof. exact (reads_add_files uni_esc uni_alnum mm). Qed.
+  Theorem add_files_as_reads_its_view : forall fuel s dir to es,
+    reads (sw (add_files_as uni_esc uni_alnum mm fuel s dir to es)) = reads (sw s) ++ reads_as fuel dir es.
+  Proof. exact (reads_add_files_as uni_esc uni_alnum mm). Qed.
+
   (* whole scripts: two input trees on which every call of the program finds the same view -- for
      compile_templates the erasure of its directory (entry names and kinds in order, contents of
      template files, recursively below UTF-8 named directories), for add_files the erasure of that
@@ -101,6 +111,8 @@ Redirect "assumptions/C17.unannounced_inputs_cannot_matter" Print Assumptions un
 Redirect "assumptions/C17.reads_are_exactly_what_is_looked_at" Print Assumptions reads_are_exactly_what_is_looked_at.
 Redirect "assumptions/C17.add_files_ignores_what_it_skips" Print Assumptions add_files_ignores_what_it_skips.
 Redirect "assumptions/C17.add_files_as_depends_on_names_only" Print Assumptions add_files_as_depends_on_names_only.
+Redirect "assumptions/C17.add_files_reads_its_view" Print Assumptions add_files_reads_its_view.
+Redirect "assumptions/C17.add_files_as_reads_its_view" Print Assumptions add_files_as_reads_its_view.
 Redirect "assumptions/C17.whole_script_depends_on_views_only" Print Assumptions whole_script_depends_on_views_only.
 Redirect "assumptions/C17.trees_that_agree_for_a_program" Print Assumptions trees_that_agree_for_a_program.
 Redirect "assumptions/C17.unannounced_differences" Print Assumptions unannounced_differences.
